@@ -5,27 +5,28 @@ from .common import *
 from .tables import is_true, is_false
 
 EXPLANATION = (
-    "Static clauses: (R1) the shift/mask term each leaper-table slot is built from (reconstructed from the MIR of the "
-    "table generators) denotes exactly the 8 knight / 8 king displacements on all 64 squares with exact edge behaviour "
-    "(finite-domain evaluation of the extracted term against the geometric relation), slot i being built from square "
-    "1<<i; (R2) slider deltas are the 4 rook and 4 bishop directions in the engine and in the build-time generator, and "
-    "both ray walkers (engine slider_moves, generator SlidingPiece::targets) are decided against the geometric relation: "
-    "their step function (continue iff the current square is no blocker and the next square is on the board, then add "
-    "the next square; start on the piece square, result accumulated from EMPTY) is read off the MIR and evaluated on all "
-    "64 squares x 8 directions x blocker configurations, with try_offset as an atom whose own meaning (bounds-checked "
-    "(rank+dr, file+df)) is checked separately and term-equal in both crates; "
-    "(R3) engine magic_index = generator magic_index + offset: ((blockers & mask) * magic) >> shift; (R4) the generator "
-    "accepts a magic only when try_make_table returned Ok, which returns Err whenever a filled slot differs, with "
-    "shift = 64 - bits, table length 1 << bits and offsets = running sum before the increment; (R5) lookups use the "
-    "rook constants with the rook table and the bishop constants with the bishop table, tables are filled from the same "
-    "constants and deltas; (R6) the constants of THIS build are validated exhaustively: for all 64 squares and all "
-    "102,400 + 5,248 relevant blocker subsets the index is in range, masks equal the relevant-occupancy masks and two "
-    "subsets share a slot only if a reference ray walk gives them the same attack set; (R7) the fill loops of the engine "
-    "(make_table) and of the generator's collision test (try_make_table) run their body once for every subset of the "
-    "mask: loop-carried blocker set, initial value, update term and continue/stop conditions are read off the MIR and the "
-    "recurrence is evaluated for all 128 masks of this build (2 x 107,648 steps); (R8) the lookups are made with the whole "
-    "occupancy, rook / bishop / queen through the right tables, own pieces removed (imports C01.R5 arms, R9, R6). Other random "
-    "draws are covered only through R2-R4 and R7.")
+    'Static clauses: (R1) the shift/mask term each leaper-table slot is built from (reconstructed from the MIR of the table generators)'
+    ' denotes exactly the 8 knight / 8 king displacements on all 64 squares with exact edge behaviour (finite-domain evaluation of the '
+    'extracted term against the geometric relation), slot i being built from square 1<<i; (R2) slider deltas are the 4 rook and 4 '
+    'bishop directions in the engine and in the build-time generator, and both ray walkers (engine slider_moves, generator '
+    'SlidingPiece::targets) are decided against the geometric relation: their step function (continue iff the current square is no '
+    'blocker and the next square is on the board, then add the next square; start on the piece square, result accumulated from EMPTY) '
+    'is read off the MIR and evaluated on all 64 squares x 8 directions x blocker configurations, with try_offset as an atom whose own '
+    'meaning (bounds-checked (rank+dr, file+df)) is checked separately and term-equal in both crates; (R3) engine magic_index = '
+    'generator magic_index + offset: ((blockers & mask) * magic) >> shift; (R4) the generator accepts a magic only when try_make_table '
+    'returned Ok, which returns Err whenever a filled slot differs, with shift = 64 - bits, table length 1 << bits and offsets = '
+    'running sum before the increment; (R5) lookups use the rook constants with the rook table and the bishop constants with the bishop'
+    ' table, tables are filled from the same constants and deltas; (R6) the constants of THIS build are validated exhaustively: for all'
+    ' 64 squares and all 102,400 + 5,248 relevant blocker subsets the index is in range, masks equal the relevant-occupancy masks and '
+    'two subsets share a slot only if a reference ray walk gives them the same attack set; (R7) the fill loops of the engine '
+    "(make_table) and of the generator's collision test (try_make_table) run their body once for every subset of the mask: loop-carried"
+    ' blocker set, initial value, update term and continue/stop conditions are read off the MIR and the recurrence is evaluated for all'
+    ' 128 masks of this build (2 x 107,648 steps); (R8) the lookups are made with the whole occupancy, rook / bishop / queen through '
+    'the right tables, own pieces removed (imports C01.R5 arms, R9, R6). Other random draws are covered only through R2-R4 and R7. R2 '
+    'accepts directions as (i8, i8) tuples or two-field structs and a step function taking two deltas or one pair; R4/R7 accept a '
+    'fallible table builder returning Result or Option and a mask computed by the caller; the fill loop may live in a helper that only '
+    'make_table / try_make_table call.'
+)
 ASSUMPTIONS = [
     "rustc const evaluation of the generated constants and the chessfacts extractor are faithful",
 ]
